@@ -318,7 +318,13 @@ def rule_extra_samples_same_slot(eng, rep, rule="C03-3c.extra-samples-go-to-the-
             continue
         c0 = firsts[0]
         if c0.target.fid == "model.Model.add_new_point":
-            okk = ekey(karg).replace(" ", "").endswith(".npt()-1")
+            karg_x = karg
+            if isinstance(karg, ast.Name):
+                # `k_added = <model>.npt() - 1` hoisted out of the loop: fine if it is read after the point was appended
+                kd = cfg.defs_reaching(karg, karg.id)
+                if len(kd) == 1 and isinstance(cfg.ast_of(kd[0]), ast.Assign) and cfg.dominates(c0.node, kd[0]):
+                    karg_x = cfg.ast_of(kd[0]).value
+            okk = ekey(karg_x).replace(" ", "").endswith(".npt()-1")
             want = "<model>.npt() - 1 (the point just appended)"
         else:
             k0 = c0.arg("k")
